@@ -298,6 +298,18 @@ fn c04(g: &mut Gen) {
             }
         }
     }
+    // the SMBus header helper on (source, destination) pairs: exhaustive in thorough
+    let cfg = simple_cfg(0);
+    for src in 0..256u32 {
+        if !g.thorough && src % 16 != (g.rng.below(16) as u32) {
+            continue;
+        }
+        g.case("smbhdr", &cfg, |s, _| {
+            for dst in 0..256u32 {
+                s.op(Op::Hdr { what: 11, fld: src, raw: vec![], v: dst });
+            }
+        });
+    }
     // body sizes: everything around the SMBus block limit enumerated, beyond it refused
     let reps = g.n(1, 6);
     for total in (10..=300usize).filter(|t| *t < 40 || *t >= 236) {
